@@ -360,9 +360,43 @@ def InRe(a: Any, re_sx: str) -> Any:
     return T(BOOL, f"(str.in_re {a.sx} {re_sx})")
 
 
+_SHARE: Dict[str, T] = {}
+_SHARE_DEFS: List[Tuple[str, str, str]] = []
+
+
+def share(t: Any) -> Any:
+    """Hash-consed let-binding: a large term is replaced by a defined name (emitted as define-fun by `query`), so that
+    nested closed forms (calendar arithmetic) stay linear in size instead of duplicating sub-terms textually."""
+    if not is_sym(t) or len(t.sx) < 48:
+        return t
+    hit = _SHARE.get(t.sx)
+    if hit is not None:
+        return hit
+    name = f"$s{len(_SHARE_DEFS)}"
+    _SHARE_DEFS.append((name, t.sort, t.sx))
+    nt = T(t.sort, name)
+    _SHARE[t.sx] = nt
+    return nt
+
+
+def _shared_defs(text: str) -> List[str]:
+    import re
+    need: set = set()
+    todo = [int(m) for m in re.findall(r"\$s(\d+)", text)]
+    while todo:
+        i = todo.pop()
+        if i in need:
+            continue
+        need.add(i)
+        todo.extend(int(m) for m in re.findall(r"\$s(\d+)", _SHARE_DEFS[i][2]))
+    return [f"(define-fun {_SHARE_DEFS[i][0]} () {_SHARE_DEFS[i][1]} {_SHARE_DEFS[i][2]})" for i in sorted(need)]
+
+
 def query(decls: Decls, asserts: Iterable[Any], get: Sequence[str] = (), logic: Optional[str] = None) -> str:
     body = [decls.header(logic)]
-    for a in asserts:
+    alist = list(asserts)
+    body.extend(_shared_defs(" ".join(a.sx for a in alist if is_sym(a)) + " " + " ".join(decls.axioms)))
+    for a in alist:
         if not is_sym(a):
             body.append(f"(assert {lit(bool(a))})")
         else:
